@@ -1,5 +1,7 @@
 #[macro_use]
 pub mod core;
+pub mod bp;
+pub mod bprun;
 pub mod envmodel;
 pub mod fsutil;
 pub mod layermodel;
